@@ -22,8 +22,8 @@ pub struct Model {
     pub chain: ChainDesc,
     /// wallet chain tip == last scanned height
     pub tip: u32,
-    /// lowest scanned height (F unless the gap of the `gap` start state is still open)
-    pub scanned_from: u32,
+    /// unscanned interval inside F..=tip (the `gap` start state, until `FillGap`)
+    pub gap: Option<(u32, u32)>,
     /// notes whose received-note row exists in the wallet (their block was scanned at some point,
     /// or they are outputs of a stored pending transaction)
     pub seen: BTreeSet<NoteKey>,
@@ -49,7 +49,7 @@ pub enum Op {
     Mine { p: usize },
     /// truncate_to_height(tip - back)
     Rewind { back: u32 },
-    /// scan the blocks F..GAP_FROM-1 that the `gap` start state left out
+    /// scan the blocks that the `gap` start state left out
     FillGap,
     /// a proposal with `lock_inputs: Some(..)` (writes locks)
     Propose { req: Req },
@@ -85,9 +85,15 @@ pub struct NoteView {
 
 impl Model {
     pub fn start(env: &Env, i: usize) -> Model {
-        let (_, _, from, tip) = &env.starts[i];
-        let mut m = Model { chain: ChainDesc { base_upto: uni::T0, dynb: vec![] }, tip: *tip, scanned_from: *from, seen: BTreeSet::new(), locks: BTreeMap::new(), stored: BTreeSet::new() };
-        m.mark_seen(env, *from, *tip);
+        let (_, _, gap, tip) = &env.starts[i];
+        let mut m = Model { chain: ChainDesc { base_upto: uni::T0, dynb: vec![] }, tip: *tip, gap: *gap, seen: BTreeSet::new(), locks: BTreeMap::new(), stored: BTreeSet::new() };
+        match gap {
+            None => m.mark_seen(env, uni::F, *tip),
+            Some((a, b)) => {
+                m.mark_seen(env, uni::F, a - 1);
+                m.mark_seen(env, b + 1, *tip);
+            }
+        }
         m
     }
 
@@ -113,7 +119,7 @@ impl Model {
     }
 
     fn scanned(&self, h: u32) -> bool {
-        h >= self.scanned_from && h <= self.tip
+        h >= uni::F && h <= self.tip && !self.gap.is_some_and(|(a, b)| a <= h && h <= b)
     }
 
     /// Is pending transaction p stored, un-mined (as far as scanned blocks go) and unexpired?
@@ -237,7 +243,7 @@ pub fn enabled(env: &Env, al: &Alphabet, m: &Model) -> Vec<Op> {
         if !m.stored.contains(&p) && pd.build_target <= t && t <= pd.expiry && inputs_live && pd.spends.iter().all(|i| !view(*i).pending_spent) {
             ops.push(Op::Store { p });
         }
-        if m.stored.contains(&p) && m.chain.mined_at(p).is_none() && t <= pd.expiry && inputs_live && m.scanned_from == uni::F {
+        if m.stored.contains(&p) && m.chain.mined_at(p).is_none() && t <= pd.expiry && inputs_live && m.gap.is_none() {
             ops.push(Op::Mine { p });
         }
     }
@@ -245,11 +251,11 @@ pub fn enabled(env: &Env, al: &Alphabet, m: &Model) -> Vec<Op> {
         ops.push(Op::Advance { k: *k });
     }
     for b in &al.rewind {
-        if m.tip >= m.scanned_from + *b && m.tip - *b >= uni::F {
+        if m.tip >= uni::F + *b && !m.gap.is_some_and(|(_, e)| m.tip - *b <= e) {
             ops.push(Op::Rewind { back: *b });
         }
     }
-    if m.scanned_from > uni::F {
+    if m.gap.is_some() {
         ops.push(Op::FillGap);
     }
     for r in &al.proposals {
@@ -426,7 +432,7 @@ pub fn apply(env: &Env, w: &mut Wallet, m: &Model, op: &Op) -> Result<Step, Stri
                 }
                 Ok(r) => {
                     let r = u32::from(r);
-                    if r > h || r < m.scanned_from {
+                    if r > h || r < uni::F || m.gap.is_some_and(|(_, e)| r <= e) {
                         return Err(format!("truncate_to_height({h}) reported truncation to {r}"));
                     }
                     n.tip = r;
@@ -440,9 +446,10 @@ pub fn apply(env: &Env, w: &mut Wallet, m: &Model, op: &Op) -> Result<Step, Stri
             }
         }
         Op::FillGap => {
-            env.scan(w, &m.chain, uni::F, m.scanned_from - 1, false)?;
-            n.scanned_from = uni::F;
-            n.mark_seen(env, uni::F, m.scanned_from - 1);
+            let (a, b) = m.gap.expect("FillGap is enabled only while the gap is open");
+            env.scan(w, &m.chain, a, b, false)?;
+            n.gap = None;
+            n.mark_seen(env, a, b);
             outs.push("fillgap".into());
         }
         Op::Propose { req } => {
